@@ -3,6 +3,7 @@ from __future__ import annotations
 import importlib
 import json
 import lzma
+import math
 import re
 import warnings
 from contextlib import closing
@@ -38,7 +39,17 @@ def _df_to_json(df: pd.DataFrame) -> dict[str, Any]:
     # See: https://github.com/pandas-dev/pandas/issues/38437
     df_json = df.to_json(orient='table', double_precision=15)
     assert df_json is not None
-    return json.loads(df_json)
+    d = json.loads(df_json)
+    # NOTE: double_precision is a number of decimal places, not of significant digits, so
+    # pandas truncates small numbers (4.41151e-11 is written as 0.000000000044115).
+    # Write the float columns ourselves: json encodes a python float with its repr.
+    nlevels = df.index.nlevels
+    for j, dtype in enumerate(df.dtypes):
+        if getattr(dtype, 'kind', None) == 'f':
+            name = d['schema']['fields'][nlevels + j]['name']
+            for row, x in zip(d['data'], df.iloc[:, j].to_numpy()):
+                row[name] = float(x) if math.isfinite(x) else None
+    return d
 
 
 def _index_to_json(index: Union[pd.Index, pd.MultiIndex]) -> dict[str, Any]:
